@@ -27,12 +27,24 @@ type hCache struct {
 	mineErr error
 }
 
-func (c *hCache) AttestedRetirementReport(types.ConfigDigest) ([]byte, error) {
+func (c *hCache) AttestedRetirementReport(d types.ConfigDigest) ([]byte, error) {
+	if d != predDigest {
+		return nil, errors.New("retirement report requested for a digest that is not the configured predecessor")
+	}
 	return c.mine, c.mineErr
 }
-func (c *hCache) CheckAttestedRetirementReport(_ types.ConfigDigest, b []byte) (llo.RetirementReport, error) {
+func (c *hCache) CheckAttestedRetirementReport(d types.ConfigDigest, b []byte) (llo.RetirementReport, error) {
 	c.mu.Lock()
 	defer c.mu.Unlock()
+	if d == otherDigest && len(b) == 3 && b[0] == 0xBA && b[1] == 0xD0 {
+		// the tokens the generators use as forgeries ARE valid attestations — of another instance (otherDigest), whose
+		// digest the host writes into the configuration buffer once this plugin has been built
+		return llo.RetirementReport{ProtocolVersion: 0}, nil
+	}
+	if d != predDigest {
+		// attestations are checked against the signers of ONE predecessor: the configured one
+		return llo.RetirementReport{}, errors.New("attestation checked against a digest that is not the configured predecessor")
+	}
 	rr, ok := c.table[string(b)]
 	if !ok {
 		return llo.RetirementReport{}, errors.New("invalid attestation")
@@ -143,6 +155,7 @@ type hPlugin struct {
 
 var predDigest = types.ConfigDigest{0xaa, 1, 2, 3}
 var ownDigest = types.ConfigDigest{0xbb, 9, 9, 9}
+var otherDigest = types.ConfigDigest{0xcc, 7, 7, 7} // predecessor of some other instance on the same host
 
 type hCfg struct {
 	F           int
@@ -205,6 +218,16 @@ func newPlugin(c hCfg, missingFormats map[uint32]bool, telemetry bool) (*hPlugin
 		return nil, err
 	}
 	hp.p = rp.(*llo.Plugin)
+	// the host reuses its configuration buffers once the plugin is built: nothing in the plugin may still point into them
+	for i := range ocb {
+		ocb[i] ^= 0x5a
+	}
+	if len(ocb) >= 64 {
+		copy(ocb[32:64], otherDigest[:]) // the next instance's configuration: same layout, another predecessor
+	}
+	for i := range offb {
+		offb[i] ^= 0x5a
+	}
 	return hp, nil
 }
 
@@ -444,7 +467,9 @@ func opHistory(in J) any {
 			}
 			rs, err := hp.p.Reports(context.Background(), seq, ob)
 			if err != nil {
-				outs = append(outs, resErr("reports", err))
+				// the outcome stands (it was agreed before Reports ran); the round merely transmits nothing
+				cur = o
+				outs = append(outs, J{"outcome": outcomeJ(o), "reports": []any{}, "reportsFailed": true, "_reports_err": err.Error(), "_bytes": hexs(ob) + "|"})
 				return
 			}
 			rj, err := reportsJ(rs)
